@@ -129,8 +129,10 @@ class Substitutor(SchemaVisitor[GenericSchema]):
 
         if schema.props.type is not Nil:
             elements = []
-            for val in value:
+            for index, val in enumerate(value):
                 if is_ellipsis(val):
+                    if (index != 0) and (index != len(value) - 1):
+                        raise SubstitutionError("`...` must be first or last element")
                     element = val
                 else:
                     element = schema.props.type.__accept__(self, value=val, **kwargs)
